@@ -9,8 +9,11 @@ from props import _units as X
 ID = "C12"
 SECTIONS = ["units"]
 LEAN_MODULES = ["QExPy.Props.C12"]
+LEMMA_MODULES = ["QExPy.Lemmas.UnitParse", "QExPy.Lemmas.ParseEquiv", "QExPy.Lemmas.ParseAst", "QExPy.Lemmas.Lex", "QExPy.Lemmas.LexRound", "QExPy.Lemmas.ParseSpec"]
 THEOREMS = ["QExPy.C12_scanner_pins_patterns", "QExPy.C12_precedence_table",
-            "QExPy.C12_tokens_equiv_partial"]
+            "QExPy.C12_tokens_equiv", "QExPy.C12_parse_eq_ref", "QExPy.C12_lex_total",
+            "QExPy.C12_lex_roundtrip", "QExPy.C12_sound", "QExPy.C12_complete",
+            "QExPy.C12_tokens_sound_complete", "QExPy.C12_tokens_equiv_partial"]
 RULE = ("sentences generated from the grammar expr := term (('*'|'/'|dot) term)*, term := factor+, "
         "factor := SYMBOL | SYMBOL^INT | SYMBOL^(p/q) | '(' expr-without-parentheses ')', optional "
         "bare numerator '1/' (the two printed forms of C13 are part of the accepted language), up "
@@ -31,7 +34,8 @@ ASSUMPTIONS = ["the scanner in Model/UnitParse.lean mirrors what re.fullmatch + 
                "('1/' numerator, '^(p/q)' powers), which C13 requires to be accepted"]
 TRUSTED = ["modelled not verified: Python's re engine (fullmatch/finditer), int(), Fraction()"]
 LEVEL_TEXT = "proof"
-LEVEL_NOTE = "token-level parser = reference grammar is proved; lexer tied by the differential run"
+LEVEL_NOTE = ("parser pipeline = reference grammar proved for all token lists and all strings (induction); "
+              "scanner vs. Python's re engine tied by the differential run")
 TECHNIQUE = "Lean 4 theorems over an exact model of tokeniser, grouping, two-stack parser, evaluator"
 
 
